@@ -1341,10 +1341,10 @@ _bucket_setstate(Bucket *self, PyObject *state)
 
         COPY_KEY_FROM_ARG(self->keys[i], k, copied);
         if (!copied)
-            return -1;
+            goto uncopy;
         COPY_VALUE_FROM_ARG(self->values[i], v, copied);
         if (!copied)
-            return -1;
+            goto uncopy;
         INCREF_KEY(self->keys[i]);
         INCREF_VALUE(self->values[i]);
     }
@@ -1357,6 +1357,16 @@ _bucket_setstate(Bucket *self, PyObject *state)
     }
 
     return 0;
+
+uncopy:
+    /* Item i could not be converted; the bucket stays empty (len == 0), so
+     * the references taken for the items copied before it must be given back.
+     */
+    while (--i >= 0) {
+        DECREF_KEY(self->keys[i]);
+        DECREF_VALUE(self->values[i]);
+    }
+    return -1;
 }
 
 static PyObject *
